@@ -501,6 +501,7 @@ func (s *stream) UnmarkDirtyOffsets() {
 // MarkDirtyOffsets marks the given vBuckets dirty again; it is called when a save that had
 // already taken them over (UnmarkDirtyOffsets) could not be stored.
 func (s *stream) MarkDirtyOffsets(dirtyOffsets map[uint16]bool) {
+	vhook.At("save.remark")
 	for vbID, dirty := range dirtyOffsets {
 		if dirty {
 			s.dirtyOffsets.Store(vbID, true)
